@@ -18,6 +18,7 @@ func init() {
 
 func runC13(w *World, r *Report) {
 	defer c13StopReleases(w, r, "C13-R7")
+	defer c15CatalogTables(w, r, "C13-R8")
 	defer catalogStatePairs(w, r, "C13-R6")
 	r.Rule("C13-R1", "subscribe and watch before list, release after", "StartRead: Subscribe{Collection,Partition}Event and Watch{Collection,Partition} dominate GetAllCollection; StartWatch post-dominates GetAllPartition. Watch*: etcd Watch opened outside the goroutine; the event loop is entered only through the start-watch case", 8)
 	r.Rule("C13-R2", "consumer protocol", "in both event consumers the branch on which shouldReadFunc reports false returns false", 2)
